@@ -1126,6 +1126,13 @@ func (env *SEnv) ufInfo(sf *SpecFunc) *specUFInfo {
 		_ = nf
 		info.probing = false
 		for k := range vc.heapTrace {
+			if k == "wm" {
+				// the allocation watermark only occurs in type-invariant side facts; the value does not depend on it
+				if saved != nil {
+					saved[k] = true
+				}
+				continue
+			}
 			info.heapKeys = append(info.heapKeys, k)
 			if saved != nil {
 				saved[k] = true
